@@ -71,6 +71,11 @@ def rule_order(an, res, prop, containers):
             if k not in ('INSERT', 'FIND', 'ERASE'):
                 continue
             for top in method_segments(an, cm, roles, m, res):
+                # a use inside a range call counts like a single call: every element performs the single-key operation
+                for lp, s2 in ops.bodiless_iterations(top):
+                    res.ob('R-USE-POS', ok=False)
+                    V(res, prop, 'R-USE-POS', cm, m.key(), 'a range element is handled without the single-key operation, its use is not recorded',
+                      site_of_seg(s2, m), 'iteration path [%s]' % ' '.join(s2.valuation()))
                 for b in ops.find_bodies(top, m):
                     check_body(res, prop, cm, roles, m, k, b)
                     check_fifo_unbind(res, prop, cm, roles, m, b.seg)
